@@ -401,6 +401,7 @@ func classify(r *evid.Recorder, u *universe, f filterSpec, x map[string]bool) {
 func TestFilter(t *testing.T) {
 	r := evid.R()
 	ctx := context.Background()
+	notes := 0
 	r.Check(t, r.Scale(800, 40000), 1, func(t *rapid.T) {
 		ws := protogen.GenWorkspace(t, genConfig())
 		fixMapEnums(ws)
@@ -452,6 +453,10 @@ func TestFilter(t *testing.T) {
 		if v.key != "" {
 			r.Fail(t, v.key, v.msg, c)
 			return
+		}
+		if v.note != "" && notes < 2 {
+			notes++
+			r.Note("re-applying a filter without its vanished excludes gave a different (smaller) result, not counted as a violation: " + v.note)
 		}
 		if v.nonTrivial {
 			fj, _ := json.Marshal(f)
